@@ -97,7 +97,9 @@ PROPS = {
     'C05': {
         'engines': [{'name': 'mg', 'timeout_quick': 600, 'timeout_thorough': 7200}],
         'trusted_base': ['test merge / dupsort callbacks and the user-defined source in ocaml/stubs.c'],
-        'assumptions': ['PARTIAL: C05_statement is stated; proved are the seek decision (T05_seek_decision_partial) and computed histories (T05_examples)'],
+        'assumptions': ['sources strictly sorted and obeying the iterator contract of C03 (ideal cursors in the model); merge function total; no dupsort in the seek theorems',
+                        'bounded iterator kinds (get / get_prefix / get_range): seek targets at or after the range start, as the property states (T05_restriction_needed shows why)',
+                        'a source whose get returns NULL is skipped by the implementation; in the model a bounded cursor with an empty range - the engine compares both'],
         'explanation': 'next/seek histories and get/get_prefix/get_range on merger sources: implementation = model = cursor over the merged content (keys exactly, values as multisets of atoms).',
     },
     'C06': {
